@@ -238,6 +238,7 @@ impl Observer for Obs {
 
 pub fn run(ctx: &Ctx) -> ! {
     let mut hp = HistoryParams::standard(ctx.tier);
+    hp.kicks = true;
     hp.weights = [12, 10, 12, 1, 0, 1, 1, 30, 6, 1, 1, 5];
     hp.cross_decrypt_every = 0;
     let spec = RunSpec {
